@@ -16,7 +16,7 @@ type c06 struct{ base }
 
 func init() {
 	core.Register(c06{base{id: "C06", level: "exploration", quickB: 16, thoroughB: 32,
-		rule: "histories over {Parse ok/err/0/2 statements, Bind known/unknown, Describe S/P, Execute (ok, fail before/after rows, panic, unknown portal), Close S/P, Flush, Sync, simple Query, unknown-type, oversized} with names from {\"\",a,b}; every history is followed by Sync + probe Query. quick: exhaustive over all histories of length <= 4 from a 13-symbol alphabet + random length <= 12; thorough: random length <= 30. Each history runs in lock-step (reply must be complete when the server blocks for input = promptness) and again pipelined in one segment (bytes and callback trace must be identical). Non-trivial = contains an error or an unknown name or a message while skipping; distinct = distinct message-kind/outcome sequence.",
+		rule: "histories over {Parse ok/err/0/2 statements, Bind known/unknown/with an unsupported format code, Describe S/P, Execute (ok, fail before/after rows, panic, unknown portal), Close S/P, Flush, Sync, simple Query, unknown-type, oversized} with names from {\"\",a,b}; every history is followed by Sync + probe Query. quick: exhaustive over all histories of length <= 4 from a 14-symbol alphabet + random length <= 12; thorough: random length <= 30. Each history runs in lock-step (reply must be complete when the server blocks for input = promptness) and again pipelined in one segment (bytes and callback trace must be identical). Non-trivial = contains an error or an unknown name or a message while skipping; distinct = distinct message-kind/outcome sequence.",
 		need:        []string{"messages_stepped", "extended_errors", "messages_discarded_while_skipping", "pipelined_runs"},
 		assumptions: append([]string{"after an unknown-type or oversized non-Query message inside a batch the reply (nothing / E / E Z) and the skipping state are left open; whether portals survive Sync, whether Close(statement) cascades to its portals and whether a simple Query destroys the unnamed statement are left open (all accepted consistently)"}, commonAssumptions...)}})
 }
@@ -30,6 +30,9 @@ func (c06) alphabet(pfx string) []func(i int) xMsg {
 			return xMsg{K: "bind", Portal: "a", Name: "a", Params: [][]byte{[]byte(fmt.Sprintf("p%d", i)), []byte("7")}, BindID: i}
 		},
 		func(i int) xMsg { return xMsg{K: "bind", Portal: "a", Name: "zz", Params: [][]byte{[]byte("x"), []byte("1")}, BindID: i} },
+		func(i int) xMsg {
+			return xMsg{K: "bind", Portal: "a", Name: "a", Params: [][]byte{[]byte("x"), []byte("1")}, RFmts: []int16{int16(2 + i)}, BindID: i}
+		},
 		func(i int) xMsg { return xMsg{K: "descS", Name: "a"} },
 		func(i int) xMsg { return xMsg{K: "descP", Portal: "a"} },
 		func(i int) xMsg { return xMsg{K: "exec", Portal: "a"} },
@@ -76,6 +79,13 @@ func randHistory(rng *core.Rng, pfx string, maxLen int, withOpen bool) []xMsg {
 				m.RFmts = []int16{0}
 			case 2:
 				m.RFmts = []int16{1}
+			}
+			if rng.Intn(15) == 0 { // unsupported format code: the Bind must fail like any other failing message
+				if rng.Bool() {
+					m.RFmts = []int16{core.Pick(rng, []int16{2, 7, -1, 256})}
+				} else {
+					m.PFmts = []int16{core.Pick(rng, []int16{2, 7, -1, 256})}
+				}
 			}
 			switch rng.Intn(3) {
 			case 1:
@@ -124,7 +134,7 @@ func randHistory(rng *core.Rng, pfx string, maxLen int, withOpen bool) []xMsg {
 
 func xNontrivial(h []xMsg) bool {
 	for _, m := range h {
-		if m.Name == "zz" || m.Portal == "zz" || m.K == "unknown" || m.K == "oversize" {
+		if m.Name == "zz" || m.Portal == "zz" || m.K == "unknown" || m.K == "oversize" || badFormats(m.RFmts) || badFormats(m.PFmts) {
 			return true
 		}
 		if (m.K == "parse" || m.K == "query") && m.Prog != nil && (m.Prog.Err != nil || len(m.Prog.Stmts) != 1) {
